@@ -45,7 +45,7 @@
     and exit takes when unhashing a thread; hence every thread is either seen by the sync or is created
     afterwards from an already synchronised parent. This is what makes a thread-sync a single step here. *)
 From Coq Require Import List NArith Bool.
-From Seccomp Require Import Raw KernelCheck.
+From Seccomp Require Import Words Machine Raw KernelCheck.
 Import ListNotations.
 Open Scope N_scope.
 
@@ -276,6 +276,83 @@ Definition do_seccomp (st:kstate) (tid:N) (op flags:N) (prog:option (N * list so
     else if op =? SECCOMP_SET_MODE_FILTER then set_mode_filter st caller flags prog
     else (st, MINUS1, EINVAL)
   end.
+
+(** ** The loader's own system calls are filtered too
+    Every system call of a thread, seccomp(2) and prctl(2) included, is first judged by the filters the thread already
+    carries (seccomp_run_filters): each program runs on the seccomp_data of the call, the result with the most
+    restrictive action wins (actions compared as SIGNED 32-bit numbers; of equal actions the newest filter's), and only
+    ALLOW / LOG let the call proceed. The record is the host's (this model is of the x86_64 kernel the checks run on):
+    little-endian, AUDIT_ARCH_X86_64, seccomp = 317, prctl = 157; the instruction pointer and pointer arguments are
+    not known to the model and read as 0 (a filter that inspects them is outside the model). *)
+Definition AUDIT_ARCH_X86_64 : N := 3221225534.
+Definition SYS_prctl : N := 157.
+Definition SYS_seccomp : N := 317.
+Definition RET_ACTION_FULL : N := 4294901760.   (* 0xffff0000 *)
+Definition RET_DATA : N := 65535.
+Definition RET_KILL_PROCESS : N := 2147483648.
+Definition RET_ERRNO : N := 327680.
+Definition RET_TRACE : N := 2146435072.
+Definition RET_LOG : N := 2147221504.
+Definition RET_ALLOW : N := 2147418112.
+Definition MAX_ERRNO : N := 4095.
+
+Fixpoint prog_of (progs:list (N * list sock_filter)) (fid:N) : list sock_filter :=
+  match progs with
+  | [] => []
+  | (f, p) :: r => if f =? fid then p else prog_of r fid
+  end.
+
+(** the value one installed program returns for an event (a program that passed the verifier always returns) *)
+Definition filter_ret (p:list sock_filter) (ev:event) : N :=
+  match run_raw (word_at true ev) p 0 0 with ORet v => v | _ => 0 end.
+
+(** position of an action in the kernel's signed order, as an unsigned number *)
+Definition action_rank (r:N) : N :=
+  let a := N.land r RET_ACTION_FULL in
+  if RET_KILL_PROCESS <=? a then a - RET_KILL_PROCESS else a + RET_KILL_PROCESS.
+
+Definition stack_ret (st:kstate) (t:thread) (ev:event) : N :=
+  fold_left (fun acc fid => let r := filter_ret (prog_of (ks_progs st) fid) ev in
+                            if action_rank r <? action_rank acc then r else acc)
+            (t_filters t) RET_ALLOW.
+
+Inductive verdict :=
+| VGo                 (* ALLOW / LOG: the call is performed *)
+| VRefuse (e:N)       (* ERRNO with data e > 0 (at most 4095), or TRACE without a tracer (ENOSYS): -1, errno e *)
+| VSkip               (* ERRNO with data 0: the call "returns 0" without being performed *)
+| VFatal.             (* KILL_*, TRAP, USER_NOTIF: the caller does not come back from the call *)
+
+Definition verdict_of (r:N) : verdict :=
+  let a := N.land r RET_ACTION_FULL in
+  let d := N.land r RET_DATA in
+  if (a =? RET_ALLOW) || (a =? RET_LOG) then VGo
+  else if a =? RET_ERRNO then (if d =? 0 then VSkip else VRefuse (N.min d MAX_ERRNO))
+  else if a =? RET_TRACE then VRefuse ENOSYS
+  else VFatal.
+
+Definition gate (st:kstate) (tid:N) (nr:N) (args:list N) : verdict :=
+  match find_thread st tid with
+  | Some t => verdict_of (stack_ret st t {| ev_nr := nr; ev_arch := AUDIT_ARCH_X86_64; ev_ip := 0; ev_args := args |})
+  | None => VGo
+  end.
+
+(** what syscall.Syscall reports for a call the filters did not let through. [VFatal]: the thread never sees a result;
+    the model answers with an errno outside the kernel's range so that histories stay total - no theorem and no replayed
+    history continues after such a call. *)
+Definition EDIED : N := 65536.
+Definition gated (v:verdict) (st:kstate) (perform:kstate * N * N) : kstate * N * N :=
+  match v with
+  | VGo => perform
+  | VRefuse e => (st, MINUS1, e)
+  | VSkip => (st, 0, 0)
+  | VFatal => (st, MINUS1, EDIED)
+  end.
+
+Definition do_seccomp_g (st:kstate) (tid:N) (op flags:N) (prog:option (N * list sock_filter)) : kstate * N * N :=
+  gated (gate st tid SYS_seccomp [op; flags; 0; 0; 0; 0]) st (do_seccomp st tid op flags prog).
+
+Definition do_prctl_g (st:kstate) (tid:N) (option a2 a3 a4 a5:N) : kstate * N * N :=
+  gated (gate st tid SYS_prctl [option; a2; a3; a4; a5; 0]) st (do_prctl st tid option a2 a3 a4 a5).
 
 (** ** clone / exit / credentials *)
 (** clone(CLONE_THREAD) called by [parent]: the child inherits no_new_privs, filters, mode, credentials *)
